@@ -411,6 +411,7 @@ func Minimize(spec *CheckSpec, prog json.RawMessage, sig string, known []KnownFi
 		return prog, nil
 	}
 	deadline := time.Now().Add(budget)
+	var reduced *Program
 	fails := func(q *Program) ([]string, bool) {
 		res := spec.Run(q)
 		if res.Trouble != "" {
@@ -418,6 +419,7 @@ func Minimize(spec *CheckSpec, prog json.RawMessage, sig string, known []KnownFi
 		}
 		for _, v := range res.Violations {
 			if v.Has(spec.Prop) && v.Signature() == sig {
+				reduced = res.Reduced
 				return res.Events, true
 			}
 		}
@@ -427,6 +429,13 @@ func Minimize(spec *CheckSpec, prog json.RawMessage, sig string, known []KnownFi
 	if !ok {
 		return prog, nil
 	}
+	if reduced != nil {
+		// the world proposes an explicit form of what failed (one schedule of a sweep)
+		q := *reduced
+		if ev, ok := fails(&q); ok {
+			p, events = q, ev
+		}
+	}
 	changed := true
 	for changed && time.Now().Before(deadline) {
 		changed = false
@@ -435,6 +444,51 @@ func Minimize(spec *CheckSpec, prog json.RawMessage, sig string, known []KnownFi
 			q.Steps = append(append([]Step(nil), p.Steps[:i]...), p.Steps[i+1:]...)
 			if ev, ok := fails(&q); ok {
 				p, events, changed = q, ev, true
+			}
+		}
+		// concurrent blocks: drop calls of a task, drop the crash, cut the choice list
+		for i := range p.Steps {
+			if p.Steps[i].Op != "conc" {
+				continue
+			}
+			try := func(mod func(b *Step)) {
+				q := p
+				q.Steps = append([]Step(nil), p.Steps...)
+				b := q.Steps[i]
+				b.Tasks = make([][]Step, len(p.Steps[i].Tasks))
+				for k := range b.Tasks {
+					b.Tasks[k] = append([]Step(nil), p.Steps[i].Tasks[k]...)
+				}
+				b.Sched = append([]int(nil), p.Steps[i].Sched...)
+				mod(&b)
+				q.Steps[i] = b
+				if ev, ok := fails(&q); ok {
+					p, events, changed = q, ev, true
+				}
+			}
+			for k := range p.Steps[i].Tasks {
+				for j := len(p.Steps[i].Tasks[k]) - 1; j >= 0 && time.Now().Before(deadline); j-- {
+					if j >= len(p.Steps[i].Tasks[k]) {
+						continue
+					}
+					k, j := k, j
+					try(func(b *Step) { b.Tasks[k] = append(b.Tasks[k][:j:j], b.Tasks[k][j+1:]...) })
+				}
+			}
+			if (p.Steps[i].CrashAt != nil || p.Steps[i].CrashStep != nil || p.Steps[i].CrashAfterTask != nil) && time.Now().Before(deadline) {
+				try(func(b *Step) { b.CrashAt, b.CrashStep, b.CrashAfterTask = nil, nil, nil })
+			}
+			for n := len(p.Steps[i].Sched); n > 0 && time.Now().Before(deadline); n /= 2 {
+				if n/2 < len(p.Steps[i].Sched) {
+					n := n
+					try(func(b *Step) { b.Sched = b.Sched[:n/2] })
+				}
+			}
+			for j := range p.Steps[i].Sched {
+				if p.Steps[i].Sched[j] != 0 && time.Now().Before(deadline) {
+					j := j
+					try(func(b *Step) { b.Sched[j] = 0 })
+				}
 			}
 		}
 		for i := len(p.Faults) - 1; i >= 0 && time.Now().Before(deadline); i-- {
